@@ -89,10 +89,20 @@ func (fs *FileSystemOperation) Restore() error {
 		return err
 	}
 
-	// We iterate over the diff and restore the files that have changed.
-	for path, content := range fileSystemSnapshot.GetDiff(fs.backUp.dataMD5) {
+	// We iterate over the diff and restore, with their backed up content,
+	// the files that have changed or were deleted since the backup.
+	for path, content := range fs.backUp.GetDiff(fileSystemSnapshot.dataMD5) {
 		if err := fs.storeFileOnDisk(path, content); err != nil {
 			return err
+		}
+	}
+
+	// Files that did not exist when the backup was taken are removed.
+	for path := range fileSystemSnapshot.data {
+		if _, found := fs.backUp.data[path]; !found {
+			if err := fs.cleanUpFile(path); err != nil {
+				return err
+			}
 		}
 	}
 
@@ -155,7 +165,7 @@ func (fs *FileSystemOperation) SaveGatewayConfig(content []byte) error {
 }
 
 func (fs *FileSystemOperation) SaveMetricsConfig(content []byte) error {
-	return fs.storeFileOnDisk(environment.GetMetricsConfigFilePath(), content)
+	return fs.storeFileOnDisk(fs.files[metricsConfigFileKey], content)
 }
 
 func (fs *FileSystemOperation) cleanUpFile(filePath string) error {
